@@ -163,7 +163,7 @@ def keyVerdict (u : Uni) (k : Key) (md : Modes) (seqs : List PSeq) (dkTok : Stri
       | none, _, _ => "-"
       | some s, [.plain s'], some dk =>
         if s' ≠ s then s!"FAIL [keypad] keypad Begin (mods {xm}) is not sent as xterm's report for DECCKM={md.decckm}"
-        else if (md.decckm ∧ xm = 0) ∨ decide (keyArrives u k dk) then "ok"
+        else if decide (keyArrives u k dk) then "ok"
         else s!"FAIL [keypad] keypad Begin decodes to {showKey dk}, which does not match key {k.keycode} mods {xm}"
       | some _, _, _ => s!"FAIL [keypad] keypad Begin: forwarded bytes are not exactly one key sequence ({seqs.length} sequences)"
     else keyVerdictCore u k md seqs dkTok outTok
